@@ -86,6 +86,12 @@ def diagonal(ev, a, k):
 def isclose(ev, a, k):
     m, ref = a[0], as_sym(a[1])
     if not isinstance(m, ArrV):
+        from .sym import TolCond, is_sym
+        if is_sym(m) and is_sym(a[1]):
+            d = sp.simplify(m - ref)
+            if not d.free_symbols:
+                return bool(abs(complex(d)) < 1e-8)
+            return TolCond(f"isclose({m}, {ref})", (m, ref))
         raise AnalysisError("numpy.isclose of a non-array")
     out = ArrV(m.batch, m.shape, fill=False)
     for key in itertools.product(*[range(d) for d in m.shape]):
